@@ -1,10 +1,16 @@
 """C12: the guess stream does not depend on thread timing or on stdin.
 (a) in-process: the real CrackingSession.run + the real keypress thread under a
 scheduler (harness/sched.py) for every single-event placement; model = Session.v.
+The same schedules on rulesets with extreme probabilities (subnormal, 0.0, 1.0,
+products that underflow for the later pre-terminals) and on RESUMED sessions
+(an earlier run was quit inside a Markov level or at a pop, the save file and
+the .omn are loaded; model = SessionModel.w_run with load_session = true).
 (b) subprocess: the CLI under five stdin conditions."""
+import configparser
 import json
 import os
 import pty
+import re
 import subprocess
 
 import common
@@ -18,7 +24,10 @@ TRUSTED = ["CPython thread scheduling, the GIL switch interval, OS stdin/tty sem
            "the scheduler stand-ins (fake threading/time/input module attributes) deliver events only at main-loop steps",
            "translator tie of the session loop: harness/translate_session.py (ast -> Gallina, fail closed; accepted subset and what it does not model in its docstring) and the meaning coq/theories/SessionRt.v gives to `while`, break, try/except OSError, `if limit:` and `x is None`; every collaborator of CrackingSession.run / _save_session (queue, grammar object with quit flag and OMEN counters, save configuration and file, keyboard thread) is an operation on an abstract world: the translated text equals SessionModel.m_run for every world (C12_source_run_is_model), and the property theorems instantiate the world with the collaborators of Session.v (SessionModel.sworld) or constrain it by a contract (quiet_world)"]
 ASSUMES = ["atomic steps of the main loop: one per pop+quit-check, one per emitted guess",
-           "a 'q' line is two events (flag set, thread ended) that may be separated by main-loop steps"]
+           "a 'q' line is two events (flag set, thread ended) that may be separated by main-loop steps",
+           "a resumed session: one atomic step per guess of the restored Markov level (written before the first pop, the flag read "
+           "after each), then as a new session; the model of the resumed schedules is SessionModel.w_run with load_session = true "
+           "(SessionResumedCorr.check_resumed), no property theorem is stated about it beyond the translator tie"]
 
 EV = {"status": "EvStatus", "help": "EvHelp", "q": "EvQuitFlag", "die": "EvThreadEnds",
       "eof": "EvThreadEnds", "err": "EvThreadEnds", "stderr_broken": "EvThreadEnds"}
@@ -30,9 +39,78 @@ def small_ruleset(rng):
     return rs
 
 
-def plans_for(T, rng, tier):
+SUBNORMAL = [1e-315, 5e-324, 1e-310, 2e-308, 1.5e-323, 3e-320]      # 0 < p < 2.2250738585072014e-308
+EXTREME_KINDS = ("sub-base", "sub-term", "sub-omen", "under-later", "sub-all", "tiny", "zero", "one")
+SMALLEST_NORMAL = 2.2250738585072014e-308
+
+
+def prob_class(p):
+    if p == 0.0:
+        return "zero"
+    if p < SMALLEST_NORMAL:
+        return "subnormal"
+    if p < 1e-290:
+        return "tiny"
+    if p == 1.0:
+        return "one"
+    return "ordinary"
+
+
+def _remap_tail(lines, new_tail, first=False):
+    """the lowest len(new_tail) distinct probabilities of a (value, prob) list replaced by new_tail (most probable first); equal
+    lines stay equal; the list is kept sorted by probability, descending (the order the trainer writes)"""
+    distinct = sorted(set(p for _, p in lines), reverse=True)
+    new_tail = list(new_tail)[:len(distinct)] if first else list(new_tail)[-len(distinct):]
+    m = dict(zip(distinct[len(distinct) - len(new_tail):], new_tail))
+    return sorted(((v, m.get(p, p)) for v, p in lines), key=lambda vp: -vp[1])
+
+
+def extreme_ruleset(rng, kind):
+    """a small ruleset whose text files hold probabilities at the edges of the float range: the probability of a pre-terminal
+    (base structure x terminals) is subnormal, exactly 0.0 (underflow), exactly 1.0 or a tiny normal number - for all
+    pre-terminals or only for the later ones of the run"""
+    rs = small_ruleset(rng)
+    rs["extreme"] = kind
+    used = sorted(set(re.findall(r"[A-Z]\d+", "".join(b for b, _ in rs["grammar"]))) & set(rs["files"]))
+    sub = lambda: rng.choice(SUBNORMAL)
+    desc = lambda n, f: sorted((f() for _ in range(n)), reverse=True)
+    if kind == "sub-base":
+        rs["grammar"] = _remap_tail(rs["grammar"], desc(rng.randint(1, 2), sub))
+    elif kind == "sub-term" and used:
+        k = rng.choice(used)
+        rs["files"][k] = _remap_tail(rs["files"][k], desc(rng.randint(1, 2), sub))
+    elif kind == "sub-omen" or kind == "sub-term":
+        rs["omen_prob"] = _remap_tail(rs["omen_prob"], desc(len(rs["omen_prob"]), sub))
+        if rng.random() < 0.5:      # the Markov base structure itself certain: the level's probability is the subnormal
+            rs["grammar"] = sorted(((b, 1.0 if b == "M" else p) for b, p in rs["grammar"]), key=lambda bp: -bp[1])
+    elif kind == "under-later":
+        # 1e-160 x (1e-140, 1e-155, 1e-164): a normal product, then a subnormal one, then 0.0
+        rs["grammar"] = [(b, 1e-160 / (1 + i)) for i, (b, _) in enumerate(rs["grammar"])]
+        for k in used:
+            rs["files"][k] = _remap_tail(rs["files"][k], [1e-140, 1e-155, 1e-164], first=True)
+        rs["omen_prob"] = _remap_tail(rs["omen_prob"], [1e-140, 1e-155, 1e-164], first=True)
+    elif kind == "sub-all":
+        rs["grammar"] = _remap_tail(rs["grammar"], desc(len(rs["grammar"]), sub))
+    elif kind == "tiny":
+        rs["grammar"] = _remap_tail(rs["grammar"], [1e-300 / (1 + i) for i in range(len(rs["grammar"]))])
+    elif kind == "zero":
+        rs["grammar"] = _remap_tail(rs["grammar"], [0.0])
+        if used and rng.random() < 0.5:
+            k = rng.choice(used)
+            rs["files"][k] = _remap_tail(rs["files"][k], [0.0])
+    elif kind == "one":
+        rs["grammar"] = [(b, 1.0) for b, _ in rs["grammar"]]
+        for k in list(rs["files"]):
+            rs["files"][k] = [(v, 1.0) for v, _ in rs["files"][k]]
+        rs["omen_prob"] = [(l, 1.0) for l, _ in rs["omen_prob"]]
+    return rs
+
+
+def plans_for(T, rng, tier, positions=None, head=0):
+    """positions: the steps at which single events are placed (None: every step of the run); head: the first [head] steps are
+    the remainder of a restored Markov level (thorough: half of the random pairs start there)"""
     plans = []
-    for t in range(T):
+    for t in (range(T) if positions is None else positions):
         for k in ("status", "help", "eof", "err", "stderr_broken"):
             plans.append({t: [k]})
         plans.append({t: ["q", "die"]})
@@ -40,16 +118,56 @@ def plans_for(T, rng, tier):
             plans.append({t: ["q"], t + d: ["die"]})
         plans.append({t: ["status", "status", "q", "die"]})
     if tier == "thorough":
-        for _ in range(4 * T):
+        for _ in range(4 * (T if positions is None else len(positions))):
             a, b = sorted(rng.sample(range(T + 2), 2))
+            if head and rng.random() < 0.5:
+                a = rng.randrange(head)
+                b = rng.randrange(a + 1, T + 2)
             plans.append({a: [rng.choice(["status", "help", "eof", "err"])], b: ["q", "die"]})
             plans.append({a: ["q"], b: ["die"]})
     return plans
 
 
-def observe(g, plan, sc, ref):
-    """run under [plan]; returns (observation tuple for the model, violations)"""
-    r = sched.run_session(g, plan, sc)
+def expected_stop(ref, tq):
+    """'q' is handled by a listening keyboard thread just before atomic step tq of the run whose undisturbed form is [ref]:
+    (number of guesses written when the run stops, index of the pre-terminal whose pop sees the request - the session is
+    saved there - or None when no pop follows).  Steps: the guesses of a restored Markov level (a resumed session), then
+    per pre-terminal one pop + quit check and one step per guess; a Markov level reads the flag after each guess."""
+    h = ref["head"]
+    items = list(zip(ref["markov"], ref["per_item"]))
+    if tq < h:
+        return tq + 1, (0 if items else None)
+    t, n = h, h
+    for i, (m, gs) in enumerate(items):
+        if tq == t:
+            return n, i
+        k = len(gs)
+        if tq <= t + k:
+            return (n + (tq - t) if m else n + k), (i + 1 if i + 1 < len(items) else None)
+        t += 1 + k
+        n += k
+    return n, None
+
+
+def live_quit_step(plan):
+    """the step at which 'q' reaches a keyboard thread that is still listening (no EOF / input error / broken stderr / earlier
+    quit before it), or None"""
+    for t in sorted(plan):
+        for e in plan[t]:
+            if e == "q":
+                return t
+            if e in ("eof", "err", "stderr_broken"):
+                return None
+    return None
+
+
+def observe(g, plan, sc, ref, start=None):
+    """run under [plan]; returns (observation tuple for the model, violations).
+    start: None = a new session; otherwise a function that puts the save file / .omn of the earlier run back and returns
+    the keyword arguments of sched.run_session for a session RESUMED from them."""
+    resumed = start is not None
+    base = 0 if resumed else 1          # saves a run makes without being asked to (the initial save of a new session)
+    r = sched.run_session(g, plan, sc, **(start() if resumed else {}))
     omn = r["omen_saves"]
     vio = []
     out, ref_out = r["out"], ref["out"]
@@ -66,19 +184,37 @@ def observe(g, plan, sc, ref):
                     "status handling must not touch the guess output" % (r["foreign"][:2], plan), "plan": replay_plan})
     if r["stray_stdout"]:
         vio.append({"sig": "C12:stdout-noise", "what": "session wrote %r to stdout" % r["stray_stdout"][:80], "plan": replay_plan})
+    # the keyboard thread must survive every status / help request: once it is gone (keypress() swallows whatever the report
+    # raised and returns) no later 'q' can reach the session, so when the stream stops depends on an earlier status request
+    for step, ev, tail, item in r["thread_died"][:1]:
+        vio.append({"sig": "C12:thread-died:" + ev, "what": "the keyboard thread ended while handling the %s request delivered at step %d "
+                    "of a %s session (status item %s; its answer ends with %r): every later quit request of this run is lost"
+                    % (ev, step, "resumed" if resumed else "new", item, tail), "plan": replay_plan})
+    for step, ev, tail, item in r["lost_quits"][:1]:
+        vio.append({"sig": "C12:quit-lost", "what": "'q' typed at step %d to a listening keyboard thread (%s session, status item %s): the thread "
+                    "handled the line but the quit flag was not set (its answer ends with %r)"
+                    % (step, "resumed" if resumed else "new", item, tail), "plan": replay_plan})
+    tq = live_quit_step(plan)
+    if tq is not None and not r["lost_quits"]:
+        n_exp, sv_exp = expected_stop(ref, tq)
+        if len(out) > n_exp:
+            vio.append({"sig": "C12:quit-lost", "what": "quit requested at step %d of a %s session under %r: the run must stop after %d guesses "
+                        "(next pre-terminal boundary / next Markov guess) but wrote %d of %d, %d save(s)"
+                        % (tq, "resumed" if resumed else "new", plan, n_exp, len(out), len(ref_out), len(r["saves"])), "plan": replay_plan})
     saved = None
-    finished = len(r["saves"]) < 2
-    if len(r["saves"]) >= 2:
+    finished = len(r["saves"]) <= base
+    if len(r["saves"]) > base:
         saved = r["saves"][-1] - 1
         mp = r["save_config"].getfloat("guessing_info", "max_probability")
         if mp != r["pops"][saved]["prob"]:
             vio.append({"sig": "C12:saved-prob", "what": "saved probability %r is not that of the popped, un-guessed pre-terminal %r"
                         % (mp, r["pops"][saved]["prob"]), "plan": replay_plan})
     if has_q and len(out) < len(ref_out):
-        if len(r["saves"]) < 2:
-            last_pop_step = ref["steps"] - len(ref["per_item"][-1]) - 1
+        if len(r["saves"]) <= base:
+            last_pop_step = (ref["steps"] - len(ref["per_item"][-1]) - 1) if ref["per_item"] else -1
+            last_markov = ref["markov"][-1] if ref["markov"] else ref["head"] > 0
             qstep = min(t for t, v in plan.items() if "q" in v)
-            if qstep > last_pop_step and ref["markov"][-1] and len(r["pops"]) == len(ref["pops"]):
+            if qstep > last_pop_step and last_markov and len(r["pops"]) == len(ref["pops"]):
                 vio.append({"sig": "C12:quit-in-final-markov-level-not-saved",
                             "what": "quit delivered at step %d inside the FINAL pre-terminal (a Markov level): the level is cut after %d guesses, "
                                     "the next pop finds the queue empty and the run returns before the quit check, so nothing is saved"
@@ -87,11 +223,11 @@ def observe(g, plan, sc, ref):
                 vio.append({"sig": "C12:quit-without-save", "what": "stopped early under %r without saving the session" % plan, "plan": replay_plan})
         else:
             # boundary: everything before the saved pre-terminal was emitted completely, except an interrupted Markov level
-            full_before = sum(len(x) for x in ref["per_item"][:saved])
+            full_before = ref["head"] + sum(len(x) for x in ref["per_item"][:saved])
             if len(out) != full_before and not omn:
                 vio.append({"sig": "C12:not-at-boundary", "what": "stopped inside a non-Markov pre-terminal under %r" % plan, "plan": replay_plan})
     om = omn[-1] if omn else None
-    if any(e in ("status", "help", "q") for v_ in plan.values() for e in v_) and min(plan) % 3 == 0:
+    if not resumed and any(e in ("status", "help", "q") for v_ in plan.values() for e in v_) and min(plan) % 3 == 0:
         # the same schedule on a session that has been guessing for more than two days / exactly one day already: the
         # status texts differ (day counts), the guess stream and stdout must not
         for pt_ in (200000, 86400 + 7):
@@ -104,12 +240,16 @@ def observe(g, plan, sc, ref):
     if 0 in plan and has_q:
         # the same events typed before anything else happened (delivered the moment the keyboard thread is started,
         # wherever the session starts it): a quit requested then is honoured like one requested before the first pop
-        r2 = sched.run_session(g, plan, sc, early=True)
+        # (a resumed session: before the first guess of the restored level is written)
+        r2 = sched.run_session(g, plan, sc, early=True, **(start() if resumed else {}))
         if r2["out"] != out or len(r2["saves"]) != len(r["saves"]):
             vio.append({"sig": "C12:early-quit-lost", "what": "events %r delivered as soon as the keyboard thread exists: %d guesses and %d saves, "
                         "but %d guesses and %d saves when delivered before the first pop (a quit typed during start-up is dropped or handled "
                         "differently)" % (plan, len(r2["out"]), len(r2["saves"]), len(out), len(r["saves"])), "plan": dict(replay_plan, early=True)})
-    return (plan, len(out), saved, om, finished), vio
+    cfg = r["save_config"]
+    cfg_omen = cfg.getint("guessing_info", "omen_guess_number") if cfg.has_option("guessing_info", "omen_guess_number") else None
+    extra = {"cfg_omen": cfg_omen, "reports": r["reports"]}
+    return (plan, len(out), saved, om, finished, extra), vio
 
 
 def big_preterminal(ctx, sc, dist):
@@ -149,19 +289,54 @@ def big_preterminal(ctx, sc, dist):
     return vio
 
 
-def reference(g, sc):
-    r = sched.run_session(g, {}, sc)
+def reference(g, sc, start=None):
+    """the undisturbed run (a new session, or the session resumed by [start]) split by pre-terminal"""
+    r = sched.run_session(g, {}, sc, **(start() if start else {}))
     per_item, markov = [], []
     # split the output by pre-terminal using the real expansion counts
     from props.C04 import collect
-    pos = 0
+    head = r["head"]        # a resumed session: what restore_omen wrote before the first pop
+    pos = head
     for it in r["pops"]:
         res = collect(g, it["pt"], None)
         n = res[1] if res else 0
         per_item.append(r["out"][pos:pos + n])
         markov.append(it["pt"][0][0][0] == "M")
         pos += n
-    return {"out": r["out"], "per_item": per_item, "markov": markov, "steps": r["steps"], "pops": r["pops"]}
+    return {"out": r["out"], "per_item": per_item, "markov": markov, "steps": r["steps"], "pops": r["pops"], "head": head,
+            "split_ok": pos == len(r["out"])}
+
+
+def resume_from(g, sc, plan, start=None):
+    """run [plan] (it holds a quit) as a new session / as the session resumed by [start] in the save directory sc; if the run
+    saved, return (start2, info): start2() puts the save file and the .omn as that run left them back and gives the
+    arguments that resume from them (any number of times: a resumed run that is quit again overwrites both files)"""
+    r = sched.run_session(g, plan, sc, **(start() if start else {}))
+    base = 0 if start else 1
+    if len(r["saves"]) <= base:
+        return None, None
+    with open(r["save_filename"], encoding="utf-8") as f:
+        sav_text = f.read()
+    omn_path = r["save_filename"][:-4] + ".omn"
+    omn = None
+    if os.path.isfile(omn_path):
+        with open(omn_path, "rb") as f:
+            omn = f.read()
+    cfg = r["save_config"]
+    n0 = cfg.getint("guessing_info", "omen_guess_number") if cfg.has_option("guessing_info", "omen_guess_number") else None
+
+    def start2():
+        if omn is not None:
+            with open(omn_path, "wb") as f:
+                f.write(omn)
+        elif os.path.isfile(omn_path):
+            os.remove(omn_path)
+        with open(r["save_filename"], "w", encoding="utf-8") as f:
+            f.write(sav_text)
+        c = configparser.ConfigParser()
+        c.read_string(sav_text)
+        return {"load_config": c}
+    return start2, {"omen_guess_number": n0, "written": len(r["out"]), "has_omn": omn is not None}
 
 
 def ev_literal(plan):
@@ -200,13 +375,190 @@ def stdin_conditions(ctx, code, rs, name):
     return vio, len(res)
 
 
+def fork(rng):
+    """a generator of its own for an added family, derived from the state of ctx.rng without drawing from it (the families
+    that were there before keep seeing the numbers they saw)"""
+    import random
+    return random.Random(hash(rng.getstate()[1]) & 0xFFFFFFFFFFFF)
+
+
+def str_plan(plan):
+    return {str(k): v for k, v in plan.items()}
+
+
+def explore(g, rs, sc, ref, plans, st, start=None, history=None, family="new"):
+    """observe every plan on the session ([start] = None: new; else resumed); violations, counts and samples go to st;
+    returns the observations"""
+    T = ref["steps"]
+    dist = st["dist"]
+    obs_list = []
+    for plan in plans:
+        obs, v = observe(g, plan, sc, ref, start)
+        for x in v:
+            x["replay"] = {"ruleset": rs, "plan": x.pop("plan")}
+            if history:
+                x["replay"]["history"] = history
+        st["vio"] += v
+        dist["schedules"] += 1
+        dist["schedules:" + family] = dist.get("schedules:" + family, 0) + 1
+        hq = any("q" in e for e in plan.values())
+        dist["with_quit"] += hq
+        t0 = min(plan)
+        inside = 0 < t0 < T - 1
+        key = (json.dumps(rs["grammar"]), json.dumps(history), json.dumps(sorted(plan.items())))
+        if key not in st["seen"]:
+            st["seen"].add(key)
+            st["nontrivial"] += inside
+        plan_, n, saved, om, fin, extra = obs
+        if om:
+            dist["inside_markov"] += 1
+        for step, ev, chars in extra["reports"]:
+            dist["status_reports"] = dist.get("status_reports", 0) + (chars > 0)
+            cur = [i for i, po in enumerate(ref.get("pop_steps", [])) if po < step]
+            if ev in ("status", "help", "q") and cur:
+                c = prob_class(ref["pops"][cur[-1]]["prob"])
+                dist["requests_at:" + c] = dist.get("requests_at:" + c, 0) + 1
+            if start is not None and step < ref["head"]:
+                dist["requests_in_restored_level"] = dist.get("requests_in_restored_level", 0) + 1
+        want = hq and om if family == "new" else hq and (t0 < ref["head"] or family != "resumed")    # a quit inside a Markov level
+        if st["sample_count"].get(family, 0) < (4 if family == "new" else 2) and want:
+            st["sample_count"][family] = st["sample_count"].get(family, 0) + 1
+            sm = {"family": family, "pre-terminals (markov, #guesses)": list(zip(ref["markov"], [len(x) for x in ref["per_item"]])),
+                  "schedule": str_plan(plan), "guesses_written": n, "saved_at": saved, "markov_cut": om}
+            if history:
+                sm["resumed_after"] = history
+                sm["guesses_left_in_restored_level"] = ref["head"]
+            if family not in ("new", "resumed"):
+                sm["probabilities_of_the_pre-terminals"] = [repr(po["prob"]) for po in ref["pops"]]
+            st["samples"].append(sm)
+        obs_list.append(obs)
+    return obs_list
+
+
+def pts_literal(ref):
+    return common.clist(["(%s, %d%%nat)" % (common.cbool(m), len(x)) for m, x in zip(ref["markov"], ref["per_item"])]) \
+        if ref["per_item"] else "(@nil (bool * nat))"
+
+
+def shard_new(ref, obs_list):
+    cases = ["(%s, %d%%nat, %s, %s, %s)" % (
+        ev_literal(plan_), n, common.coption(saved, lambda x: "%d%%nat" % x),
+        common.coption(om, lambda x: "(%d%%nat, %d%%nat)" % x), common.cbool(fin)) for plan_, n, saved, om, fin, _ in obs_list]
+    return "\n".join(["From Coq Require Import List Arith Bool.", "From Pcfg Require Import Session SessionCorr.",
+                      "From PcfgGen Require Import Consts_gen.", "Import ListNotations.",
+                      "Definition pts := mk_pts %s 0 0." % pts_literal(ref),
+                      "Definition runs : list obs_run := [", ";\n".join(cases), "].",
+                      "Eval vm_compute in (failing (check_run session_polls_quit_flag pts) runs)."])
+
+
+def shard_resumed(ref, info, obs_list):
+    """the resumed session in the model: SessionModel.w_run with load_session = true (SessionResumedCorr.check_resumed); the
+    restored level is pre-terminal 0, the restored queue holds pre-terminals 1, 2, ..."""
+    onat = lambda x: common.coption(x, lambda y: "%d%%nat" % y)
+    opair = lambda x: common.coption(x, lambda y: "(%d%%nat, %d%%nat)" % y)
+    n0 = info["omen_guess_number"]
+    om0 = (0, n0 or 0) if info["has_omn"] else None
+    cases = []
+    for plan_, n, saved, om, fin, extra in obs_list:
+        sv = "(@nil (option nat * option nat))" if fin else "[(%s, %s)]" % (onat(saved + 1), onat(extra["cfg_omen"]))
+        om_ = (om[0] + 1, om[1]) if om else om0
+        cases.append("(%s, %d%%nat, %s, %s)" % (ev_literal(plan_), n, sv, opair(om_)))
+    return "\n".join(["From Coq Require Import List Arith Bool.", "From Pcfg Require Import Session SessionCorr SessionResumedCorr.",
+                      "Import ListNotations.",
+                      "Definition head := seq 0 %d." % ref["head"],
+                      "Definition pts := mk_pts %s 1 %d." % (pts_literal(ref), ref["head"]),
+                      "Definition runs : list res_run := [", ";\n".join(cases), "].",
+                      "Eval vm_compute in (failing (check_resumed head pts %s %s) runs)." % (onat(n0), opair(om0))])
+
+
+def pop_steps(ref):
+    """the atomic step of every pop of the undisturbed run"""
+    t, res = ref["head"], []
+    for x in ref["per_item"]:
+        res.append(t)
+        t += 1 + len(x)
+    return res
+
+
+def cuts_of(ref):
+    """where an earlier run can be quit so that a save file exists: ('markov', i, j, step) = after the j-th guess of Markov level
+    i (not its last guess; a later pop exists, else nothing is saved: R18), ('pop', i, step) = at the pop of pre-terminal i"""
+    ps = pop_steps(ref)
+    n = len(ref["per_item"])
+    mk = [("markov", i, j, ps[i] + j) for i in range(n - 1) if ref["markov"][i] for j in range(1, len(ref["per_item"][i]))]
+    po = [("pop", i, ps[i]) for i in range(1, n)]
+    return mk, po
+
+
+def resumed_families(ctx, rng, g, rs, sc, ref, st, shards, tag, n_markov, n_pop, chain, maxT):
+    """schedules on sessions RESUMED from a save that an earlier run of the same session left: quit inside a Markov level
+    (the resumed run first writes the remainder of that level, from a status item that CrackingSession.run builds by hand)
+    or at a pop; events at every atomic step of the remainder and at / after the first pop (quick: the remainder up to
+    6 steps, the first pop, 3 later steps; thorough: the whole remainder, the first pop, 6 later steps, random pairs).  chain: also resume a session that was itself resumed and
+    quit again inside the remainder."""
+    mk, po = cuts_of(ref)
+    rng.shuffle(mk)
+    rng.shuffle(po)
+    # prefer cuts that leave a long remainder
+    mk.sort(key=lambda c: c[2] > 2)
+    todo = [(c, None, None, 0) for c in mk[:n_markov] + po[:n_pop]]
+    k = 0
+    while todo:
+        cut, start, history, depth = todo.pop(0)
+        k += 1
+        d = os.path.join(sc, "%s_res%d" % (tag, k))
+        os.makedirs(d, exist_ok=True)
+        plan1 = {cut[-1]: ["q", "die"]}
+        if start is not None:
+            # the earlier run was itself a resumed one: make its files first, in the new directory
+            start, _ = rebuild(g, d, history)
+            if start is None:
+                continue
+        start2, info = resume_from(g, d, plan1, start)
+        if start2 is None:
+            continue
+        hist2 = (history or []) + [str_plan(plan1)]
+        ref2 = reference(g, d, start2)
+        ref2["pop_steps"] = pop_steps(ref2)
+        T2 = ref2["steps"]
+        if T2 < 1 or T2 > 2 * maxT or not ref2["split_ok"]:
+            continue
+        dist = st["dist"]
+        fam = "resumed" if cut[0] == "markov" or depth else "resumed-at-pop"
+        dist["resumed_sessions"] = dist.get("resumed_sessions", 0) + 1
+        dist["resumed_in_markov_level"] = dist.get("resumed_in_markov_level", 0) + (ref2["head"] > 0)
+        h = ref2["head"]
+        later = list(range(h + 1, T2))
+        if ctx.tier == "thorough":
+            positions = sorted(set(list(range(h)) + ([h] if h < T2 else []) + rng.sample(later, min(6, len(later)))))
+        else:
+            positions = sorted(set(list(range(min(h, 6))) + ([h] if h < T2 else []) + rng.sample(later, min(3, len(later)))))
+        obs = explore(g, rs, d, ref2, plans_for(T2, rng, ctx.tier, positions, h), st, start2, hist2, fam)
+        shards.append(("%s_x%02d" % (tag, k), shard_resumed(ref2, info, obs)))
+        if chain and depth == 0 and h >= 2:
+            # quit again after the first guess of the remainder, resume that
+            todo.append((("markov", -1, 1, 0), start2, hist2, 1))
+            chain -= 1
+
+
+def rebuild(g, d, history):
+    """replay the earlier runs [history] (each a schedule holding a quit) in the save directory d; the start function of the
+    session resumed after the last of them (None if one of them did not save)"""
+    start, info = None, None
+    for hp in history:
+        start, info = resume_from(g, d, {int(k): v for k, v in hp.items()}, start)
+        if start is None:
+            return None, None
+    return start, info
+
+
 def run(ctx):
     nrs = ctx.scale(5, 40)
     maxT = ctx.scale(40, 60)
     sc = common.scratch()
     vio, samples, shards, corr = [], [], [], []
     dist = {"rulesets": 0, "schedules": 0, "with_quit": 0, "inside_markov": 0, "steps_total": 0, "stdin_runs": 0}
-    nontrivial, seen = 0, set()
+    st = {"vio": vio, "dist": dist, "samples": samples, "seen": set(), "nontrivial": 0, "sample_count": {}}
     tries = 0
     while dist["rulesets"] < nrs and tries < nrs * 30:
         tries += 1
@@ -224,38 +576,68 @@ def run(ctx):
             continue
         dist["rulesets"] += 1
         dist["steps_total"] += T
-        pts_lit = common.clist(["(%s, %d%%nat)" % (common.cbool(m), len(x)) for m, x in zip(ref["markov"], ref["per_item"])])
-        cases = []
-        for plan in plans_for(T, ctx.rng, ctx.tier):
-            obs, v = observe(g, plan, sc, ref)
-            for x in v:
-                x["replay"] = {"ruleset": rs, "plan": x.pop("plan")}
-            vio += v
-            dist["schedules"] += 1
-            hq = any("q" in e for e in plan.values())
-            dist["with_quit"] += hq
-            t0 = min(plan)
-            inside = 0 < t0 < T - 1
-            key = (json.dumps(rs["grammar"]), json.dumps(sorted(plan.items())))
-            if key not in seen:
-                seen.add(key)
-                nontrivial += inside
-            plan_, n, saved, om, fin = obs
-            if om:
-                dist["inside_markov"] += 1
-            cases.append("(%s, %d%%nat, %s, %s, %s)" % (
-                ev_literal(plan_), n, common.coption(saved, lambda x: "%d%%nat" % x),
-                common.coption(om, lambda x: "(%d%%nat, %d%%nat)" % x), common.cbool(fin)))
-            if len(samples) < 4 and hq and om:
-                samples.append({"pre-terminals (markov, #guesses)": list(zip(ref["markov"], [len(x) for x in ref["per_item"]])),
-                                "schedule": {str(k): v2 for k, v2 in plan.items()}, "guesses_written": n,
-                                "saved_at": saved, "markov_cut": om})
-        src = ["From Coq Require Import List Arith Bool.", "From Pcfg Require Import Session SessionCorr.",
-               "From PcfgGen Require Import Consts_gen.", "Import ListNotations.",
-               "Definition pts := mk_pts %s 0 0." % pts_lit,
-               "Definition runs : list obs_run := [", ";\n".join(cases), "].",
-               "Eval vm_compute in (failing (check_run session_polls_quit_flag pts) runs)."]
-        shards.append(("r%03d" % dist["rulesets"], "\n".join(src)))
+        ref["pop_steps"] = pop_steps(ref)
+        obs = explore(g, rs, sc, ref, plans_for(T, ctx.rng, ctx.tier), st)
+        shards.append(("r%03d" % dist["rulesets"], shard_new(ref, obs)))
+        # the same session quit and RESUMED: events while the rest of the restored Markov level is written, and after it
+        resumed_families(ctx, fork(ctx.rng), g, rs, sc, ref, st, shards, "r%03d" % dist["rulesets"],
+                         n_markov=ctx.scale(2, 3), n_pop=1, chain=ctx.scale(1 if dist["rulesets"] <= 2 else 0, dist["rulesets"] % 2), maxT=maxT)
+    # rulesets with probabilities at the edges of the float range (the status report shows the current pre-terminal's
+    # probability; generation multiplies them): the same schedules, the same oracle
+    xrng = fork(ctx.rng)
+    nx = ctx.scale(len(EXTREME_KINDS), 3 * len(EXTREME_KINDS))
+    off = xrng.randrange(len(EXTREME_KINDS))
+    xn = 0
+    for xi in range(nx):
+        kind = EXTREME_KINDS[(off + xi) % len(EXTREME_KINDS)]
+        for attempt in range(40):       # a kind that cannot be drawn does not hold up the others
+            rs = extreme_ruleset(xrng, kind)
+            try:
+                g = impl_next.load_grammar(rs, sc)
+            except Exception:
+                dist["extreme_not_loadable"] = dist.get("extreme_not_loadable", 0) + 1
+                continue
+            items, _, capped, _ = impl_next.full_stream(g, cap=30, check_heap=False)
+            if capped or len(items) < 2:
+                continue
+            ref = reference(g, sc)
+            T = ref["steps"]
+            classes = [prob_class(po["prob"]) for po in ref["pops"]]
+            want = {"sub-base": "subnormal", "sub-term": "subnormal", "sub-omen": "subnormal", "sub-all": "subnormal", "tiny": "tiny",
+                    "zero": "zero", "one": "one"}.get(kind)
+            if T > ctx.scale(30, 40) or T < 4 or not ref["split_ok"]:
+                continue
+            if (want and want not in classes) or (kind == "under-later" and not ("subnormal" in classes and classes[0] in ("tiny", "ordinary"))):
+                continue
+            xn += 1
+            dist["extreme_rulesets"] = dist.get("extreme_rulesets", 0) + 1
+            dist["extreme:" + kind] = dist.get("extreme:" + kind, 0) + 1
+            for c in classes:
+                dist["pre-terminals:" + c] = dist.get("pre-terminals:" + c, 0) + 1
+            ref["pop_steps"] = pop_steps(ref)
+            obs = explore(g, rs, sc, ref, plans_for(T, xrng, ctx.tier), st, family="extreme:" + kind)
+            shards.append(("e%03d" % xn, shard_new(ref, obs)))
+            if any(ref["markov"][:-1]):
+                resumed_families(ctx, xrng, g, rs, sc, ref, st, shards, "e%03d" % xn, n_markov=1, n_pop=ctx.scale(0, 1), chain=0, maxT=maxT)
+            break
+    # every run explores sessions resumed INSIDE a Markov level: if the rulesets above happened to offer fewer than two (the
+    # level was always the last pre-terminal, or had a single guess), draw further rulesets for that family alone
+    frng, ft = fork(xrng), 0
+    while dist.get("resumed_in_markov_level", 0) < 2 and ft < 200:
+        ft += 1
+        rs = small_ruleset(frng)
+        try:
+            g = impl_next.load_grammar(rs, sc)
+        except Exception:
+            continue
+        items, _, capped, _ = impl_next.full_stream(g, cap=30, check_heap=False)
+        if capped or len(items) < 2:
+            continue
+        ref = reference(g, sc)
+        if ref["steps"] > maxT or not cuts_of(ref)[0]:
+            continue
+        resumed_families(ctx, frng, g, rs, sc, ref, st, shards, "f%03d" % ft, n_markov=2, n_pop=0, chain=0, maxT=maxT)
+    nontrivial = st["nontrivial"]
     for name, idx, log in common.run_case_shards("C12", shards):
         if idx is None:
             corr.append(("session:" + name, False, log[-800:]))
@@ -301,8 +683,16 @@ def run(ctx):
         dist["stdin_runs"] += n
     rule = ("small rulesets with Markov levels (<= %d atomic steps); EVERY single placement of status / help / EOF / input error / "
             "broken stderr / quit (flag and thread end together or 1, 2, 5 steps apart) at every atomic step, delivered to the real "
-            "keypress thread by a scheduler; thorough adds random pairs; plus the CLI under tty / open pipe / pipe at EOF / /dev/null / "
-            "closed stdin; non-trivial = the event lands strictly inside the run; distinct by (ruleset, schedule)" % maxT)
+            "keypress thread by a scheduler; thorough adds random pairs; the same placements (i) on rulesets whose files hold "
+            "probabilities at the edges of the float range (%s: subnormal / 0.0 / 1.0 / tiny pre-terminal probabilities, for all or "
+            "only the later pre-terminals) and (ii) on RESUMED sessions: an earlier run of the session was quit inside a Markov level "
+            "(or at a pop, or was itself a resumed run quit inside the restored level), its save file and .omn are loaded, events at "
+            "every step of the remainder of the restored level (quick: up to 6), at the first pop and after it (quick: 3 steps, "
+            "thorough: 6 steps and random pairs); oracle everywhere: prefix of the undisturbed run, a quit typed to a listening thread sets the flag and "
+            "stops the run at the next Markov guess / pre-terminal boundary with the session saved, the thread survives every status "
+            "/ help request; plus the CLI under tty / open pipe / pipe at EOF / /dev/null / "
+            "closed stdin; non-trivial = the event lands strictly inside the run; distinct by (ruleset, earlier runs, schedule)"
+            % (maxT, ", ".join(EXTREME_KINDS)))
     # translator tie of the session loop (CrackingSession.run = SessionModel.m_run = Session.run_session)
     import session_tie
     corr.append(session_tie.obligation("session"))
@@ -330,9 +720,20 @@ def replay(ctx, data):
         return v
     sc = common.scratch()
     g = impl_next.load_grammar(rs, sc)
-    ref = reference(g, sc)
     plan = {int(k): v for k, v in inp["plan"].items() if k not in ("early", "past_time")}
-    obs, v = observe(g, plan, sc, ref)
+    start, history = None, inp.get("history")
+    if history:
+        # the session is resumed after the earlier runs [history] (each a schedule with a quit) of the same session
+        sc = os.path.join(sc, "replay_res")
+        os.makedirs(sc, exist_ok=True)
+        start, _ = rebuild(g, sc, history)
+        if start is None:
+            return [{"sig": "C12:quit-without-save", "what": "the earlier runs %r of the session did not leave a save file to resume from"
+                     % (history,), "replay": inp}]
+    ref = reference(g, sc, start)
+    obs, v = observe(g, plan, sc, ref, start)
     for x in v:
         x["replay"] = {"ruleset": rs, "plan": x.pop("plan")}
+        if history:
+            x["replay"]["history"] = history
     return v
